@@ -164,7 +164,7 @@ Definition blk_op (r : rstate) (op : list tok) : list tok * rstate :=
             let o := owed r c in
             if 1 <? o then ([TI 1; TI o], r)
             else
-              let b1 := if is_blocked (r_b r) c then with_dead (r_b r) (c :: b_dead (r_b r)) else r_b r in
+              let b1 := if is_blocked (r_b r) c then with_dead (r_b r) (c :: b_dead (r_b r)) else drop_conn (r_b r) c in
               let r' := settle r t (del_conn (r_s r) c, b1) in
               (TI 0 :: TI o :: enc_frames (map canon (unread r c)), r')
         | _ => ([TB (bs "BADOP")], r)
